@@ -235,6 +235,7 @@ class World:
         self.read_failures = []
         self.incoherent = []
         self.arg_cache = {}
+        self.deep_share = []
 
     def arg(self, obj):
         """the SAME python object for equal arguments of different calls (lists of IDs, ID maps, metadata dicts):
@@ -766,6 +767,19 @@ def api_call(W, name, recv, p, rng, do_poke=True):
     if len(W.calls) == k:
         return idx, raised
     rec = W.calls[k]
+    if not rec["inplace"] and raised is None and idx:
+        def value_objects(u):
+            return set(id(v) for a in AXES for m in (u.metadata(axis=a) or ()) for v in m.values()
+                       if isinstance(v, (list, dict)))
+        new = set(idx)
+        shared = any(value_objects(W.live[i]) & value_objects(u) for i in idx
+                     for j, u in enumerate(W.live) if j not in new)
+        if shared and name in DEEP_COPYING:
+            # copy(), transpose and the inplace=False family deep-copy the metadata (fixed list, established on the
+            # unchanged tree): a result that shares a nested value with an older table has left that set
+            W.deep_share.append((k, name))
+        elif shared:
+            W.count("nested-metadata-values-shared-with-source(counted, not judged):" + name)
     if not rec["inplace"] and raised is None and do_poke:
         n = 0
         for ri in idx:
@@ -1377,6 +1391,9 @@ def check(ctx, W, case, tags=()):
     for k, acc, bad in W.read_failures:
         ctx.fail(case, "read.answers-current-content", list(tags) + ["accessor=" + acc],
                  detail={"call": k, "what": bad, "recipe": W.recipe})
+    for k, name in W.deep_share:
+        ctx.fail(case, "new.deep-copy-shares-nested-metadata-values", list(tags) + ["op=" + name],
+                 detail={"call": k, "recipe": W.recipe})
     for k, name, raised in W.incoherent:
         ctx.fail(case, "inplace.raised-leaves-receiver-incoherent", list(tags) + ["op=" + name, "raised=" + raised],
                  detail={"call": k, "recipe": W.recipe})
